@@ -63,7 +63,8 @@ pub fn valid_stream(rng: &mut Rng, nprog: usize, pes_per_stream: usize, repeats:
             let spec = PesSpec { stream_id: sid, pts: if rng.chance(3, 4) { Some(rng.below(1 << 33)) } else { None }, dts: if rng.chance(1, 3) { Some(rng.below(1 << 33)) } else { None },
                                  extra_hdr: if rng.chance(1, 4) { rng.range(1, 6) as usize } else { 0 }, bounded: rng.chance(1, 2), payload: payload.clone(),
                                  opt_flags: if rng.chance(1, 3) { rng.byte() & 0x3f } else { 0 }, opt_fill: rng.bytes(8) };
-            let spec = PesSpec { dts: if spec.pts.is_some() { spec.dts } else { None }, ..spec };
+            // DTS present only with a PTS; equal to it in a quarter of those cases
+            let spec = PesSpec { dts: if spec.pts.is_some() { if spec.dts.is_some() && rng.chance(1, 4) { spec.pts } else { spec.dts } } else { None }, ..spec };
             let (bytes, hl) = pes_packet(&spec);
             let style = rng.below(4);
             let first = (hl + rng.below(60) as usize).min(184);
